@@ -17,18 +17,18 @@ READY = True
 DRIVER = "dm_graph"
 LEAN_MODULES = ["DaskModel.Props.C07"]
 LEVEL_TEXT = ("Lean 4 theorems over a transliteration of dask.core._toposort (explicit stack, completed/seen sets, cycle "
-              "reconstruction walk), for every graph, start list and adjacency order: a returned order is duplicate-free, holds "
-              "exactly the keys reachable from the start keys (all keys for toposort(dsk)), places every key after all its "
-              "dependencies, and is returned only if no reachable key lies on a cycle; a returned cycle (getcycle) / the "
-              "RuntimeError branch (toposort) is a closed walk along dependency edges through reachable keys; isdag is the "
-              "negation of getcycle's emptiness. PARTIAL: totality (on a closed graph the model always answers with an order "
-              "or a cycle, i.e. the loops terminate within the fuel and the walk never gets stuck) is not yet a theorem; it is "
-              "validated on every generated input (a fuel/stuck answer of the model or a hang of the real code is reported).")
+              "reconstruction walk, as repaired), for every graph, start list and adjacency order. FULL: toposort_total (on a "
+              "closed graph with unique keys the algorithm always answers: the loops terminate within the fuel, no lookup fails, "
+              "and the greedy min-priority walk always closes the cycle -- proved from a stack-structure invariant: every stack "
+              "entry was pushed by the nearest expanded node below it, priorities are strictly ordered by last stack position), "
+              "toposort_nodup, toposort_respects_deps, toposort_mem_iff_reach (output = exactly the reachable keys, all keys for "
+              "toposort(dsk)), toposort_raises_iff_cycle, toposort_cycle_is_cycle (closed walk along dependency edges through "
+              "reachable keys), getcycle_is_cycle, getcycle_nil_iff_acyclic, isdag_eq/isdag_true_acyclic/isdag_false_cyclic.")
 LEVEL_NOTE = ("Trusted: Lean kernel + standard axioms; the hand transliteration, tied by function-level diff of _toposort with "
               "explicit ordered dependencies (all digraphs <= 3 nodes with self-loops x all start subsets, all loop-free "
               "digraphs on 4 nodes, random graphs <= 30 nodes) and of toposort/getcycle/isdag on legacy and task-spec graphs; "
               "Python set iteration order is observed, not modelled. The unrepaired code hung on graphs whose DFS stack "
-              "held a node twice (fixed in /repo, see known_findings.json).")
+              "held a node twice (fixed in /repo, see known_findings.json); the termination proof is about the repaired code.")
 TECHNIQUE = "Lean 4 proof (invariants of the explicit-stack DFS) + differential correspondence"
 ASSUMPTIONS = ["keys are compared only through ==/hash (interned to Nat for the model)",
                "iteration order of a dependency set is the one observed by the harness from an identically built set"]
